@@ -83,6 +83,40 @@ fn rac_markdown_tokens() {
             }
         }
     }
+    // the same contract after the document-level condensing passes (contractions, ellipses, Latin abbreviations, ...),
+    // which assume that the tokens they merge are adjacent in the source: Markdown escapes and line ends break that
+    // assumption, the result must stay ordered and disjoint all the same
+    let dfrags = ["don\\'t stop ", "Wait.\\.. ", "et\r\nal. ", "vs\\. them ", "etc\\. ", "we\\'ve ", "word ", "é😀 ", "\n\n", "e.\\g. ", "1\\st "];
+    let mut dtexts: Vec<String> = vec![];
+    for a in dfrags.iter() { dtexts.push(a.to_string()); for b in dfrags.iter() { dtexts.push(format!("{}{}", a, b)); for c in dfrags.iter() { dtexts.push(format!("{}{}{}", a, b, c)); } } }
+    for t in &dtexts {
+        *wd.lock().unwrap() = Some((cases, t.clone()));
+        let n = t.chars().count();
+        cases += 1;
+        let r = std::panic::catch_unwind(|| {
+            let doc = crate::Document::new_markdown_default_curated(t);
+            doc.get_tokens().iter().map(|t| (t.span.start, t.span.end, matches!(t.kind, TokenKind::ParagraphBreak | TokenKind::Newline(_)))).collect::<Vec<_>>()
+        });
+        let mut bad: Option<String> = None;
+        match r {
+            Err(_) => bad = Some("building the document panicked".to_string()),
+            Ok(toks) => {
+                let mut cur = 0usize;
+                for (i, (s0, e0, brk)) in toks.iter().enumerate() {
+                    if s0 > e0 || *e0 > n { bad = Some(format!("document token #{} [{}, {}) is outside the text of {} chars", i, s0, e0, n)); break; }
+                    if s0 < e0 {
+                        if *s0 < cur { bad = Some(format!("document token #{} [{}, {}) overlaps or precedes the previous covering token ending at {}", i, s0, e0, cur)); break; }
+                        cur = *e0;
+                    } else if !brk { bad = Some(format!("zero-width non-break document token #{}", i)); break; }
+                }
+                if toks.len() > 3 { nontrivial += 1; }
+            }
+        }
+        if let Some(why) = bad {
+            println!("RAC-CEX markdown_tokens {{\"stage\": \"document\", \"text\": {:?}, \"why\": {:?}}}", t, why);
+            panic!("markdown document token contract violated");
+        }
+    }
     *wd.lock().unwrap() = None;
-    println!("RAC-OK markdown_tokens cases={} nontrivial={} bound=<=4-of-21-fragments,both-link-title-options", cases, nontrivial);
+    println!("RAC-OK markdown_tokens cases={} nontrivial={} bound=<=4-of-21-fragments,both-link-title-options+documents-of-<=3-of-11-escape-fragments", cases, nontrivial);
 }
